@@ -23,6 +23,7 @@ func init() {
 			"(4) split-requests-copy-scalar-fields (observation only, never a violation: the statement of C23 is about items, not request settings): for every place a sharder builds a new request of the sharded type, every non-slice field of the kmsg struct (enumerated through go/types, minus Version/UnknownTags) is expected to be assigned from the same field of the original request, or the whole struct copied; deviations are listed under `observations` in the evidence (on the pinned tree: listOffsetsSharder does not copy ListOffsetsRequest.TimeoutMillis). " +
 			"(2b) item-accounted-at-most-once: in every item loop (and nested sub-item / fan-out loop) of every shard method the accounting statements of one loop level are mutually exclusive per iteration: after an accounting statement (or a nested item loop) no second one is reachable before the next iteration, so an item is never placed in an error list and then also in a broker request. " +
 			"(6) response-item-key-from-assigned-request-field: wherever the response side (onResp and the package-level helpers it calls with the request) stores a field of the request into a response item (group name, transactional id, coordinator key), every request field it reads is one that the single-item request construction assigns unconditionally (the forward conversion helper, e.g. offsetFetchGroupToReq / addPartitionsTxnToReq, or the per-item construction inside the shard loop), and the store dominates the point where the converted item is returned or appended. " +
+			"(7) rebuilt-item-keys-are-a-set: when a shard method rebuilds a string key array of its own request copy (FindCoordinator's CoordinatorKeys), the new contents are appended from ranging a map keyed by the item that was filled, on every path, from every original key before the rebuild, or come from slices.Compact of a slice that a sort call dominates with no write in between; any slices.Compact in a sharder must have a sorted operand. " +
 			"(5) merge-keeps-every-item: every item array of the response type is transferred by the merge callback on every path (append of resp.F... or a loop whose body appends on every path; skipping is allowed only for first-wins de-duplication through a seen-set), intermediate maps are emitted into the merged response, and firstErrMerger hands every error-free shard to the callback.",
 		NotDecided: "that the broker chosen for an item is the right one (metadata/coordinator lookups are trusted), exactly-one-shard for the replica-fanned kinds (AlterReplicaLogDirs and DescribeLogDirs send an item to every replica by design; an item whose metadata lists zero replicas lands in no shard), value-level contents of the merged response (e.g. WriteTxnMarkers merges by producer ID only), and duplicate items in the caller's request (FindCoordinator de-duplicates keys by design).",
 		Assumptions: []string{
@@ -55,6 +56,7 @@ func runC23(c *Ctx) {
 	c23scalars(c, m, shs)
 	c23merge(c, m, shs)
 	c23convert(c, m, shs)
+	c23dedupe(c, m, shs)
 	c23dump(c)
 }
 
@@ -2976,4 +2978,258 @@ func c23convert(c *Ctx, m *Module, shs []c23sharder) {
 		}
 	}
 	c.Floor(rule, nKeys, 3)
+}
+
+// ---------------------------------------------------------------------------
+// (7) a shard method that rebuilds the request's own key array rebuilds it
+// duplicate-free (set semantics), never by adjacent-only compaction
+
+func c23dedupe(c *Ctx, m *Module, shs []c23sharder) {
+	rule := "rebuilt-item-keys-are-a-set"
+	nRebuilt := 0
+	isSortCall := func(info *types.Info, call *ast.CallExpr) bool {
+		switch calleeName(info, call) {
+		case "slices.Sort", "slices.SortFunc", "slices.SortStableFunc", "sort.Strings", "sort.Slice", "sort.SliceStable", "sort.Sort", "sort.Stable":
+			return true
+		}
+		return false
+	}
+	isCompact := func(info *types.Info, call *ast.CallExpr) bool {
+		k := calleeName(info, call)
+		return k == "slices.Compact" || k == "slices.CompactFunc"
+	}
+	// sortedBefore: the compacted operand is a local that a sort call on it dominates, with no write in between
+	sortedBefore := func(f *Func, call *ast.CallExpr) bool {
+		info := f.Info()
+		if len(call.Args) < 1 {
+			return false
+		}
+		id, ok := unparen(call.Args[0]).(*ast.Ident)
+		if !ok {
+			return false
+		}
+		o := info.Uses[id]
+		g := f.GraphFor(call)
+		cl, ok := g.LocOf(call)
+		if !ok || o == nil {
+			return false
+		}
+		for _, sc := range c22callsDeep(f.Decl.Body, func(x *ast.CallExpr) bool { return isSortCall(info, x) }) {
+			if len(sc.Args) < 1 || c23rootObj(info, sc.Args[0]) != o {
+				continue
+			}
+			if _, isID := unparen(sc.Args[0]).(*ast.Ident); !isID {
+				continue
+			}
+			sl, ok := g.LocOf(sc)
+			if !ok || !g.Dominates(sl, cl) {
+				continue
+			}
+			clean := true
+			ast.Inspect(f.Decl.Body, func(y ast.Node) bool {
+				as, ok := y.(*ast.AssignStmt)
+				if !ok {
+					return true
+				}
+				for _, l := range as.Lhs {
+					if c23rootObj(info, l) == o {
+						wl, okw := g.LocOf(as)
+						if okw && g.Dominates(sl, wl) && (g.Dominates(wl, cl) || wl == cl) && !containsNode(as, false, func(z ast.Node) bool { return z == ast.Node(call) }) {
+							clean = false
+						}
+					}
+				}
+				return true
+			})
+			if clean {
+				return true
+			}
+		}
+		return false
+	}
+	for _, sh := range shs {
+		f := sh.shard
+		if f == nil {
+			continue
+		}
+		info := f.Info()
+		g := f.Graph()
+		T := sh.reqType
+		tst, ok := T.Underlying().(*types.Struct)
+		if !ok {
+			continue
+		}
+		// every adjacent-only compaction in the sharder operates on sorted data
+		for _, fn := range []*Func{sh.shard, sh.onResp, sh.merge} {
+			if fn == nil {
+				continue
+			}
+			ord := 0
+			for _, call := range c22callsDeep(fn.Decl.Body, func(x *ast.CallExpr) bool { return isCompact(fn.Info(), x) }) {
+				ord++
+				c.Check(sortedBefore(fn, call), rule, fmt.Sprintf("%s: %s #%d", fn.Key, exprStr(call.Fun), ord), call.Pos(), m, "operand sorted first",
+					"slices.Compact removes only adjacent duplicates and its operand is not sorted first: a duplicate item that is not next to its twin survives and is requested (and answered) twice")
+			}
+		}
+		// the request variable
+		var reqVar types.Object
+		ast.Inspect(f.Decl.Body, func(x ast.Node) bool {
+			if as, ok := x.(*ast.AssignStmt); ok && len(as.Lhs) == 1 && len(as.Rhs) == 1 && reqVar == nil {
+				if ta, ok := unparen(as.Rhs[0]).(*ast.TypeAssertExpr); ok && ta.Type != nil {
+					if n := c23kmsgNamed(info.Types[ta.Type].Type); n != nil && n.Obj() == T.Obj() {
+						reqVar = c23rootObj(info, as.Lhs[0])
+					}
+				}
+			}
+			return true
+		})
+		if reqVar == nil {
+			continue
+		}
+		for i := 0; i < tst.NumFields(); i++ {
+			fd := tst.Field(i)
+			sl, ok := fd.Type().Underlying().(*types.Slice)
+			if !ok {
+				continue
+			}
+			if b, ok := sl.Elem().Underlying().(*types.Basic); !ok || b.Info()&types.IsString == 0 {
+				continue
+			}
+			isFieldOfReq := func(e ast.Expr) bool {
+				sel, ok := unparen(e).(*ast.SelectorExpr)
+				if !ok || sel.Sel.Name != fd.Name() {
+					return false
+				}
+				id, ok := unparen(sel.X).(*ast.Ident)
+				return ok && c23rootObj(info, id) == reqVar
+			}
+			// writes to req.F (outside literals)
+			var writes []*ast.AssignStmt
+			ast.Inspect(f.Decl.Body, func(x ast.Node) bool {
+				if _, isLit := x.(*ast.FuncLit); isLit {
+					return false
+				}
+				if as, ok := x.(*ast.AssignStmt); ok {
+					for _, l := range as.Lhs {
+						if isFieldOfReq(l) {
+							writes = append(writes, as)
+						}
+					}
+				}
+				return true
+			})
+			if len(writes) == 0 {
+				continue
+			}
+			nRebuilt++
+			cons := f.Key + ": " + reqVar.Name() + "." + fd.Name()
+			parents := parentMap(f.Decl.Body)
+			var problems []string
+			var sets []types.Object
+			nAppend := 0
+			for _, as := range writes {
+				if len(as.Lhs) != 1 || len(as.Rhs) != 1 {
+					problems = append(problems, "unrecognised write `"+nodeStr(as)+"`")
+					continue
+				}
+				rhs := unparen(as.Rhs[0])
+				if app, ok := c23isAppend(info, rhs); ok {
+					// req.F = append(req.F, key) inside `for key := range set`
+					nAppend++
+					var loop *ast.RangeStmt
+					for p := parents[as]; p != nil; p = parents[p] {
+						if rs, ok := p.(*ast.RangeStmt); ok {
+							loop = rs
+							break
+						}
+					}
+					okSet := false
+					if loop != nil && loop.Key != nil && loop.Value == nil && len(app.Args) == 2 && !app.Ellipsis.IsValid() && isFieldOfReq(app.Args[0]) {
+						if mt, ok := info.Types[loop.X].Type.Underlying().(*types.Map); ok && types.Identical(mt.Key(), sl.Elem()) {
+							if c23rootObj(info, app.Args[1]) == c23rootObj(info, loop.Key) {
+								if so := c23rootObj(info, loop.X); so != nil {
+									if _, isID := unparen(loop.X).(*ast.Ident); isID {
+										okSet = true
+										sets = append(sets, so)
+									}
+								}
+							}
+						}
+					}
+					if !okSet {
+						problems = append(problems, "`"+nodeStr(as)+"` does not append the keys of a set (a map keyed by the item)")
+					}
+					continue
+				}
+				if call, ok := rhs.(*ast.CallExpr); ok {
+					if isCompact(info, call) {
+						if !sortedBefore(f, call) {
+							problems = append(problems, "`"+nodeStr(as)+"` compacts an unsorted slice (only adjacent duplicates are removed)")
+						}
+						continue
+					}
+					if id, ok := unparen(call.Fun).(*ast.Ident); ok && id.Name == "make" {
+						continue // fresh, empty
+					}
+					if k := calleeName(info, call); k == "slices.Clone" && len(call.Args) == 1 && isFieldOfReq(call.Args[0]) {
+						continue // private copy of the same contents
+					}
+				}
+				if c22isNilExpr(info, rhs) {
+					continue
+				}
+				problems = append(problems, "unrecognised write `"+nodeStr(as)+"`")
+			}
+			// each set was filled from every original key: a loop over req.F stores each element,
+			// and it runs before the array is reset
+			for _, so := range sets {
+				filled := false
+				ast.Inspect(f.Decl.Body, func(x ast.Node) bool {
+					rs, ok := x.(*ast.RangeStmt)
+					if !ok || !isFieldOfReq(rs.X) || rs.Value == nil {
+						return true
+					}
+					vo := c23rootObj(info, rs.Value)
+					isStore := func(n ast.Node) bool {
+						as, ok := n.(*ast.AssignStmt)
+						if !ok || len(as.Lhs) != 1 {
+							return false
+						}
+						ix, ok := unparen(as.Lhs[0]).(*ast.IndexExpr)
+						return ok && c23rootObj(info, ix.X) == so && c23rootObj(info, ix.Index) == vo
+					}
+					head, body, done := c23loopBlocks(g, rs)
+					if head == nil || body == nil {
+						return true
+					}
+					if _, skip := g.FindPath(Loc{int(body.Index), -1}, SearchOpts{
+						Stop:      isStore,
+						GoalBlock: func(b *cfg.Block) bool { return b == head || b == done },
+						GoalExit:  func(k ExitKind, _ ast.Node) bool { return k != ExitPanic },
+					}); skip {
+						return true
+					}
+					// the fill loop precedes every write of the array
+					before := true
+					for _, as := range writes {
+						if as.Pos() < rs.End() {
+							before = false
+						}
+					}
+					if before {
+						filled = true
+					}
+					return true
+				})
+				if !filled {
+					problems = append(problems, "the set "+so.Name()+" is not filled from every element of the original "+fd.Name()+" before the array is rebuilt")
+				}
+			}
+			if nAppend == 0 && len(problems) == 0 {
+				// only resets / compaction: fine
+			}
+			c.Check(len(problems) == 0, rule, cons, writes[0].Pos(), m, "rebuilt from a set filled with every original key (or a sorted compaction)", strings.Join(dedupeKeepOrder(problems), "; ")+": a key the caller listed twice is requested and answered twice (or a listed key is dropped)")
+		}
+	}
+	c.Floor(rule, nRebuilt, 1)
 }
